@@ -6,10 +6,14 @@ from ..core import zlist, z
 GUARD = 7777000
 
 
-def mk_partition_case(data, p, stride, off, tail, et="i64", **kw):
+def mk_partition_case(data, p, stride, off, tail, et="i64", own=0, **kw):
+    """own: 0 mutable view, 1 shared array with a second live handle, 2 copy-on-write array borrowing the parent"""
     lay = lay1(len(data), stride, off, tail)
     buf = lay.embed(list(data), lambda k: GUARD + k)
     line = "%s | %s | %d %s | %d" % (et, lay.tokens(), len(buf), " ".join(map(str, buf)), p)
+    if own:
+        line += " %d" % own
+        kw["ownership"] = {1: "shared (second handle alive)", 2: "copy-on-write (borrowing)"}[own]
     return Case("partition", line, data=list(data), p=p, lay=lay.view1(), cells=lay.cells(), buf=buf, **kw)
 
 
@@ -31,7 +35,8 @@ class C15(Prop):
     id = "C15"
     imports = ["Run.RunSort"]
     rule = ("all weak-order patterns up to the tier's length bound x every pivot position x view strides "
-            "{1,2,-1,3,-2} inside guarded parents, plus random longer arrays; a case is non-trivial when the "
+            "{1,2,-1,3,-2} inside guarded parents, plus random longer arrays, plus shared (ArcArray with a second handle) and "
+            "copy-on-write arrays; a case is non-trivial when the "
             "array has >= 2 elements; distinct = distinct (pattern, pivot, layout)")
     exhaustive_note = {"quick": "all weak orders of length <= 5 x every pivot position (x 3 layouts)",
                        "thorough": "all weak orders of length <= 7 x every pivot position (x rotating layouts)"}
@@ -60,6 +65,14 @@ class C15(Prop):
             data = [rng.range(-hi, hi) for _ in range(n)]
             s, o, t = rng.choice(lays)
             yield mk_partition_case(data, rng.below(n), s, o, t)
+        # ownership: the array the routine is called on shares its storage (an ArcArray with a second live handle, a
+        # copy-on-write array still borrowing its source): same result, never a panic, and the other handle / the
+        # source must come out unchanged
+        for _ in range(80 if tier == "quick" else 2000):
+            n = rng.range(1, 12)
+            data = [rng.range(0, 6) for _ in range(n)]
+            s, o, t = rng.choice(lays)
+            yield mk_partition_case(data, rng.below(n), s, o, t, own=rng.choice([1, 2]))
         # a few out-of-range positions (C16 covers them systematically)
         for n in range(0, 4):
             for p in (n, n + 1):
